@@ -46,6 +46,13 @@ def channels(tier):
     for mode, lname in (("gapped", "blocks+gaps"), ("cont", "contiguous_multi_file"), ("gapped", "contiguous_multi_file")):
         k0 = U.start_positions(10, 3, 1000, 2, U.EPOCHS[1:2])[1][0]
         out.append((dict(c01._cfg(10, 3, 1000, 2, k0, mode)), layouts[lname], "SPLITDIRS 10/3 %s %s" % (mode, lname)))
+    # 26-27 samples per file: files that start with missing samples and hold three or four blocks (queries
+    # ending in the empty head of such a file, or early in its first block)
+    n, d, fc, sc = 200, 3, 400, 2
+    k0 = U.start_positions(n, d, fc, sc, U.EPOCHS[1:2])[0][0]
+    for mode in ("gapped", "gapped+gz9+cks"):
+        out.append((dict(c01._cfg(n, d, fc, sc, k0, mode)), [("wb", [3, 8, 12, 20, 30], [0, 3, 5, 8, 9], 12), ("w", 33, 2), ("w", 40, 1)],
+                    "200/3 %s many_blocks_per_file" % mode))
     # floating-point boundary channels
     for j in c01.fp_jobs("quick")[:: (16 if tier == "quick" else 4)]:
         _, cfg, ops, firsts, label = j
@@ -132,7 +139,7 @@ def run_channel(item):
             tops = [top2, top]
         reader = drf.DigitalRFReader(tops)
         ex = model.exposed(cfg)
-        edges = rfrun.edge_set(model, cfg, band=3, limit=28)
+        edges = rfrun.edge_set(model, cfg, band=3, limit=(64 if "many_blocks" in label else 28))
         lo, hi = min(ex), max(ex)
         part["states"].add(core.canon((cfgd, ops)))
         # --- bounds
@@ -324,6 +331,36 @@ def run_channel(item):
             finally:
                 os.chdir(cwd)
         reader.close()
+        # --- the same channel described by the older drf_properties.h5 layout the reader still accepts (no
+        #     numerator/denominator, a samples_per_second value only), for rates that this value determines
+        import fractions
+
+        if not isinstance(tops, list) and fractions.Fraction(
+                float(np.float64(cfg["n"]) / np.float64(cfg["d"]))).limit_denominator() == fractions.Fraction(cfg["n"], cfg["d"]):
+            with h5py.File(os.path.join(run.chdir, "drf_properties.h5"), "a") as f:
+                del f.attrs["sample_rate_numerator"], f.attrs["sample_rate_denominator"]
+                if "digital_rf_version" in f.attrs:
+                    del f.attrs["digital_rf_version"]
+                if cfg["d"] == 1:
+                    f.attrs["samples_per_second"] = np.uint64(cfg["n"])
+                else:
+                    f.attrs["samples_per_second"] = np.float64(cfg["n"]) / np.float64(cfg["d"])
+            try:
+                r5 = drf.DigitalRFReader(top)
+                b5 = tuple(r5.get_bounds(ch))
+                got5 = rf.read_runs(r5, ch, lo, hi)
+                part["evaluations"] += 2
+                err5 = rf.compare_runs(cfg, got5, full_model)
+                if b5 != (lo, hi) or err5:
+                    bad({"class": "older_properties_layout_changes_answers"}, "drf_properties.h5 with samples_per_second only: bounds %r (expected %r); read: %s" % (b5, (lo, hi), err5))
+                for s_ in edges[::3]:
+                    if rf.compare_runs(cfg, rf.read_runs(r5, ch, s_, s_), model.runs(s_, s_, cfg)):
+                        bad({"class": "older_properties_layout_changes_answers"}, "drf_properties.h5 with samples_per_second only: read(%d,%d) differs" % (s_, s_), query=[s_, s_])
+                        break
+                r5.close()
+            except Exception as e:  # noqa: BLE001
+                bad({"class": "older_properties_layout_rejected", "exc": type(e).__name__}, repr(e))
+            part["outcomes"]["older_properties_layout"] += 1
         part["traces"] += 1
         part["nontrivial"].add(core.canon((cfgd, ops)))
         if not part["samples"]:
